@@ -206,6 +206,9 @@ static int linearizable(void) {
   return found;
 }
 
+#ifdef MINI
+int main(void) { val_off = vp_node_val_off(); vp_m_ctor(&M); sp_init(); pre_op(PRE0); pre_op(PRE1); pre_op(PRE2); VP_REACHED(); return 0; }
+#else
 int main(void) {
   val_off = vp_node_val_off();
   vp_m_ctor(&M);
@@ -266,3 +269,4 @@ int main(void) {
   VP_REACHED();
   return 0;
 }
+#endif
